@@ -71,6 +71,7 @@ WORDS = ["Error", "evaluating", "field", "XPath", "expression", "cycle", "bindin
          "Résumé", "form", "instance", "null", "expected", ">>>", "(bad)", "100%", "type mismatch:"]
 SEGS = ["data", "g", "grp_1", "age", "my-field", "q1", "meta", "instanceID", "Repeat9", "x_y", "hh.size", "prénom", "v1.2", "Ünï", "item", "value", "k.9-z", "नाम", "สกุล", "prénom", "item_count", "body_parts"]
 POSITION = re.compile(r"\[\d+\]$")
+GRAMMAR_PATH = re.compile(r"^(/[^/\s\[\]]+(\[\d+\])?){2,}$")
 
 
 def render_lines(lines):
@@ -87,6 +88,10 @@ def render_lines(lines):
         if kind == "l":
             raw.append(ln[1])
             exp.append(ln[1])
+        elif kind == "p" and not GRAMMAR_PATH.match(ln[2]):
+            # (a shrunk case may leave the grammar: a text that is no path of two or more steps is just text)
+            raw.append(ln[1] + ln[2] + ln[3])
+            exp.append(ln[1] + ln[2] + ln[3])
         elif kind == "p":      # instance path -> ${last segment}
             raw.append(ln[1] + ln[2] + ln[3])
             exp.append(ln[1] + "${%s}" % POSITION.sub("", ln[2].rsplit("/", 1)[1]) + ln[3])
